@@ -413,7 +413,14 @@ class Resource(metaclass=abc.ABCMeta):
         answer (True), or whether the resource will do that by itself
         (False)."""
 
-    async def _render_to_pipe(self, pipe: Pipe) -> None:
+    async def _render_blockwise(self, req):
+        """Produce the response to a single request message, running it through
+        the block-wise reassembly and response slicing unless the resource
+        does that by itself (see :meth:`needs_blockwise_assembly`).
+
+        Requests that do not complete a request body, or that can not be
+        answered, leave this as exceptions that render into the suitable
+        response."""
         if not hasattr(self, "_block1"):
             warnings.warn(
                 "No attribute _block1 found on instance of "
@@ -427,8 +434,6 @@ class Resource(metaclass=abc.ABCMeta):
             self._block1 = Block1Spool()
             self._block2 = Block2Cache()
 
-        req = pipe.request
-
         if await self.needs_blockwise_assembly(req):
             req = self._block1.feed_and_take(req)
 
@@ -441,7 +446,10 @@ class Resource(metaclass=abc.ABCMeta):
         else:
             res = await self.render(req)
 
-        pipe.add_response(res, is_last=True)
+        return res
+
+    async def _render_to_pipe(self, pipe: Pipe) -> None:
+        pipe.add_response(await self._render_blockwise(pipe.request), is_last=True)
 
     async def render_to_pipe(self, pipe: Pipe) -> None:
         """Create any number of responses (as indicated by the request) into
@@ -492,13 +500,20 @@ class ObservableResource(Resource, metaclass=abc.ABCMeta):
     async def _render_to_pipe(self, pipe: Pipe) -> None:
         from .protocol import ServerObservation
 
-        # If block2:>0 comes along, we'd just ignore the observe
-        if pipe.request.opt.observe != 0:
-            return await Resource._render_to_pipe(self, pipe)
+        req = pipe.request
 
-        # If block1 happens here, we can probably just not support it for the
-        # time being. (Given that block1 + observe is untested and thus does
-        # not work so far anyway).
+        # Only a complete request for the beginning of a representation can
+        # set up an observation. A block of a request body (block1 + observe
+        # is not supported for the time being) and a request for a later block
+        # of a response (where the observe is just ignored) are handled like
+        # on any other resource, so that the resource gets to see reassembled
+        # bodies only and later blocks are cut from the response that is kept.
+        if (
+            req.opt.observe != 0
+            or req.opt.block1 is not None
+            or (req.opt.block2 is not None and req.opt.block2.block_number != 0)
+        ):
+            return await Resource._render_to_pipe(self, pipe)
 
         servobs = ServerObservation()
 
@@ -508,7 +523,11 @@ class ObservableResource(Resource, metaclass=abc.ABCMeta):
             # there still owes the resource its cancellation callback.
             await self.add_observation(pipe.request, servobs)
 
-            first_response = await self.render(pipe.request)
+            # Through the block-wise machinery like any other request for the
+            # beginning: a large response is sent as its first block and kept
+            # for the later ones, and a response kept from an earlier request
+            # is not served any more.
+            first_response = await self._render_blockwise(req)
 
             if (
                 not servobs._accepted
@@ -525,8 +544,6 @@ class ObservableResource(Resource, metaclass=abc.ABCMeta):
             # numbers. (if they did not, the client might be tempted to discard
             # them).
             first_response.opt.observe = next_observation_number = 0
-            # If block2 were to happen here, we'd store the full response
-            # here, and pick out block2:0.
             pipe.add_response(first_response, is_last=False)
 
             while True:
